@@ -31,6 +31,21 @@ def mir_init_genesis(cfg):
     return q
 
 
+def mir_recovery(cfg):
+    """After a restart the in-memory matched-block set is re-loaded from the store.  The synchronizer removes the EARLIEST stored record when the
+    downloaded set is complete (O8.2), so the record that is re-loaded must be the earliest one as well - otherwise the blocks of the earliest
+    record are never downloaded and the client aborts on the mismatch or skips them."""
+    import mirpaths
+    q = mirpaths.Query(cfg)
+    add = cfg.find_calls(r'Peers::add_matched_blocks$')
+    q.witness(add, 'the recovery (add_matched_blocks) is reachable')
+    ge = cfg.find_calls(r'Storage::get_earliest_matched_blocks$', required=False)
+    edges = [cfg.option_edges(c)['some'] for c in ge]
+    q.must_pass(add, edges, 'try_send_get_block_filters re-loads matched blocks that do not come from the EARLIEST stored record (the record the synchronizer removes '
+                'on completion): after a restart with two pending records the earliest one is skipped')
+    return q
+
+
 def obligations():
     return [
         KModelOb('O8.1-set-scripts-crash', 'ufs', 'set_scripts_crash', 'update_filter_scripts (real text) with a crash after any number of its write operations: '
@@ -40,6 +55,8 @@ def obligations():
         KModelOb('O8.2-block-arrival-crash', 'syncarm', 'send_block_crash', 'SendBlock arm (real text) with a crash after any number of its write operations: a pending '
                  'matched-block record is gone from the store only if all its blocks are indexed and the script numbers raised', common.send_block_arm,
                  'crash point k in 0..5, <=2 matched hashes, arbitrary incoming committed block', timeout=1500, mem_gb=12, min_covers=1, weight=5),
+        MirOb('O8.5-recovery-earliest', 'FilterProtocol::try_send_get_block_filters: the matched blocks re-loaded after a restart come from the Some edge of '
+              'Storage::get_earliest_matched_blocks (the record block arrival removes, O8.2)', r'block_filter\.rs:\d+:\d+: \d+:\d+>::try_send_get_block_filters\(', mir_recovery, src_rel=BF),
         MirOb('O8.3-genesis-init-order', 'Storage::init_genesis_block: the batch holding the GENESIS_BLOCK marker is committed only after the keys that every '
               'start-up reads unconditionally have been written', r'storage\.rs:\d+:\d+: \d+:\d+>::init_genesis_block\(', mir_init_genesis, src_rel=STORAGE),
     ]
